@@ -176,7 +176,7 @@ func (g *Gen) totalCall() Ev {
 func (g *Gen) sharedCall(pool []d128.Decimal) Ev {
 	x, y := pool[g.r.Intn(len(pool))], pool[g.r.Intn(len(pool))]
 	var e Ev
-	switch g.r.Intn(8) {
+	switch g.r.Intn(14) {
 	case 0, 1, 2:
 		e = Ev{"op": []string{"Add", "Sub", "Mul", "Quo", "QuoRem"}[g.r.Intn(5)], "wm": g.r.Intn(2) == 0, "m": g.r.Intn(6)}
 		e.setDec("x", x)
@@ -195,8 +195,26 @@ func (g *Gen) sharedCall(pool []d128.Decimal) Ev {
 		e = Ev{"op": "Round", "wm": true, "m": g.r.Intn(6)}
 		e.setDec("x", x)
 		setInt(e, "dp", g.r.Intn(41)-20)
-	default:
+	case 7:
 		e = Ev{"op": "Parse", "via": "Parse", "s": ints([]byte(g.validLiteral()))}
+	case 8: // conversions: operands with moderate exponents (the oracle handles 2^20000-sized quantities, but slowly)
+		e = Ev{"op": []string{"Int", "Rat", "Float64", "Float32"}[g.r.Intn(4)]}
+		e.setDec("x", pool[3+4*g.r.Intn(len(pool)/4)])
+	case 9:
+		e = Ev{"op": "ToInt", "ty": []string{"int64", "int32", "uint64", "uint32"}[g.r.Intn(4)]}
+		e.setDec("x", x)
+	case 10:
+		e = Ev{"op": "Float", "rprec": []int{-1, 0, 53, 128}[g.r.Intn(4)]}
+		e.setDec("x", pool[3+4*g.r.Intn(len(pool)/4)])
+	case 11:
+		e = Ev{"op": []string{"Exp", "Log", "Log10", "Exp2"}[g.r.Intn(4)]}
+		e.setDec("x", pool[3+4*g.r.Intn(len(pool)/4)])
+	case 12:
+		e = Ev{"op": "Sprintf", "spec": ints([]byte([]string{"v", ".3e", "+08.2f", "g", "-12.5G"}[g.r.Intn(5)]))}
+		e.setDec("x", x)
+	default:
+		e = Ev{"op": "Decompose", "bufcap": []int{-1, 16}[g.r.Intn(2)]}
+		e.setDec("x", x)
 	}
 	return e
 }
@@ -207,6 +225,12 @@ func (g *Gen) concurrent(G, ncalls int) {
 	pool := make([]d128.Decimal, 12)
 	for i := range pool {
 		pool[i] = randFinite(g.r)
+		if i%4 == 3 {
+			pool[i] = mk(g.r.Intn(2) == 0, randCoef(g.r), g.r.Intn(61)-30)
+		}
+		if i == 10 {
+			pool[i] = randSpecial(g.r)
+		}
 	}
 	calls := make([]Ev, ncalls)
 	seq := make([]map[string]any, ncalls)
